@@ -5,7 +5,7 @@ sys.path.insert(0, os.path.dirname(os.path.abspath(__file__)))
 import simgen
 
 SLICE_BASE = {'ops': 10000, 'wrap': 20000, 'steps': 30000, 'try': 40000, 'handler': 50000, 'pos': 60000, 'opts': 70000,
-              'grid': 80000, 'nest': 90000, 'anchor': 1000}
+              'grid': 80000, 'nest': 90000, 'anchor': 1000, 'optsf': 75000}
 
 
 CHUNK = {'grid': 2, 'nest': 8}
